@@ -254,6 +254,23 @@ theorem C09_gray_to_rgb (s t : Depth) (v : Int) :
   · simp [colorConvert, convNoAlpha, toRgb, nth]
   · cases s <;> rfl
 
+/-- gray -> heterogeneous rgb (packed rgb565 / rgb332, bit-aligned): channel k of the result is channel_convert of the gray
+    into packed_channel_value<w_k>, the k-th channel's OWN type -- in particular blue is scaled to blue's width, not green's;
+    heterogeneous rgb -> rgb8 converts channel k from its own width -/
+theorem C09_gray_to_het (s : GilVerif.Model.C06.Ch) (wr wg wb : Nat) (v r g b : Int) :
+    grayToHet s [wr, wg, wb] v = [GilVerif.Model.C06.conv s (.packed wr) v, GilVerif.Model.C06.conv s (.packed wg) v, GilVerif.Model.C06.conv s (.packed wb) v]
+    ∧ hetToRgb8 [wr, wg, wb] [r, g, b] = [GilVerif.Model.C06.conv (.packed wr) .u8 r, GilVerif.Model.C06.conv (.packed wg) .u8 g, GilVerif.Model.C06.conv (.packed wb) .u8 b]
+    ∧ rgb8ToHet [wr, wg, wb] [r, g, b] = [GilVerif.Model.C06.conv .u8 (.packed wr) r, GilVerif.Model.C06.conv .u8 (.packed wg) g, GilVerif.Model.C06.conv .u8 (.packed wb) b] :=
+  ⟨rfl, rfl, rfl⟩
+
+/-- neutrals on the integer paths of the model: rgb565 / rgb332 white and black to rgb8, and gray8 into a 2-4-2 packed
+    pixel (divisible down-conversions); gray -> rgb565 itself runs through the `double` path of C06 and is decided by the
+    correspondence (every gray8 and gray16 value enumerated) -/
+theorem C09_het_neutrals :
+    hetToRgb8 [5, 6, 5] [31, 63, 31] = [255, 255, 255] ∧ hetToRgb8 [5, 6, 5] [0, 0, 0] = [0, 0, 0]
+    ∧ hetToRgb8 [3, 3, 2] [7, 7, 3] = [255, 255, 255]
+    ∧ grayToHet .u8 [2, 4, 2] 255 = [3, 15, 3] ∧ grayToHet .u8 [2, 4, 2] 0 = [0, 0, 0] := by decide
+
 /-- rgb8 -> gray8 of the model is the generated luminance kernel (so the lum theorems are about color_convert) -/
 theorem C09_rgb_to_gray8 (r g b : Int) : colorConvert .rgb .gray .d8 .d8 [r, g, b] = [lum8 r g b] := by
   simp [colorConvert, convNoAlpha, lum, chConv, nth]
